@@ -143,8 +143,9 @@ func checkExpr(t *rapid.T, rec *ev.Rec, e *node, src string, rows [][]*val) {
 	fns := newExprFns()
 	fns.fns[e] = whole
 	emptyOr := orWithEmptyRange(src)
-	poolMerge := constPoolMerge(e)
-	for _, row := range rows {
+	emptyDup := emptyPointDup(src)
+	poolMerge := constPoolMerge(src)
+	for rowi, row := range rows {
 		var canon strings.Builder
 		canon.WriteString(src)
 		for i := range cols {
@@ -156,9 +157,10 @@ func checkExpr(t *rapid.T, rec *ev.Rec, e *node, src string, rows [][]*val) {
 		// operand pairs reached by comparisons
 		w := newWalk(fns, row)
 		mv, mok := w.eval(e)
+		w.subAsAdd = w.subAsAddDiffers(e)
 		if mok != !lr.raised || (mok && !sameValue(mv, lr.v)) {
 			rec.Label("controlflow_walk_differs_from_compiled_whole")
-			if rec.WantSample("walk_differs") {
+			if rowi == 0 && rec.WantSample("walk_differs") {
 				rec.Sample("walk_differs", fmt.Sprintf("%s | a=%v b=%v c=%v | compiled whole: %v | walk: %v %v", src, row[0], row[1], row[2], lr, mv, mok))
 			}
 		}
@@ -171,6 +173,7 @@ func checkExpr(t *rapid.T, rec *ev.Rec, e *node, src string, rows [][]*val) {
 			for _, tm := range terms {
 				tw := newWalk(fns, row)
 				tw.eval(tm)
+				tw.subAsAdd = tw.subAsAddDiffers(tm)
 				ww.merge(tw)
 			}
 		}
@@ -184,8 +187,15 @@ func checkExpr(t *rapid.T, rec *ev.Rec, e *node, src string, rows [][]*val) {
 			rec.Label("table_" + tb)
 			wo := d.query(tb+" where "+src, "")
 			xo := d.query(tb+" extend x = "+src, "x")
+			brief := func() map[string]any {
+				return map[string]any{"expr": src, "row": fmt.Sprint(row), "lang": lr.String(), "where": wo.String(), "where_strategy": wo.strat,
+					"extend": xo.String(), "raw_nodes": ri.rawNodes, "value_nodes": ri.valNodes}
+			}
 			info := func() string {
-				return fmt.Sprintf("\nexpr:   %s\nrow:    a=%v b=%v c=%v\npacked: a=%x b=%x c=%x\nlang:   %v\nwhere:  %v   [%s]\nextend: %v   [%s]\nraw: whole=%v rawNodes=%d valueNodes=%d",
+				// diagnosis only: the same requests again, and the table contents
+				again := fmt.Sprintf("\nagain:  where %v | extend %v | %s holds %v, %s holds %v", d.query(tb+" where "+src, ""), d.query(tb+" extend x = "+src, "x"),
+					tables[0], d.query(tables[0], "k"), tables[1], d.query(tables[1], "k"))
+				return again + fmt.Sprintf("\nexpr:   %s\nrow:    a=%v b=%v c=%v\npacked: a=%x b=%x c=%x\nlang:   %v\nwhere:  %v   [%s]\nextend: %v   [%s]\nraw: whole=%v rawNodes=%d valueNodes=%d",
 					src, row[0], row[1], row[2], row[0].packed, row[1].packed, row[2].packed, lr, wo, wo.strat, xo, xo.strat, ri.whole, ri.rawNodes, ri.valNodes)
 			}
 
@@ -212,7 +222,7 @@ func checkExpr(t *rapid.T, rec *ev.Rec, e *node, src string, rows [][]*val) {
 			case known(w.bitShort, "bitop-short-circuit", " (extend form)"):
 			case known(w.divFirst, "const-numerator-division", " (extend form)"):
 			default:
-				judgeExtend(t, rec, lr, xo, info)
+				judgeExtend(t, rec, lr, xo, info, brief, rowi == 0)
 			}
 
 			// ---- where form
@@ -229,13 +239,13 @@ func checkExpr(t *rapid.T, rec *ev.Rec, e *node, src string, rows [][]*val) {
 				known(ww.divFirst, "const-numerator-division", " (where form)"),
 				known(ww.lossy, "int64-dnum-lossy-compare", " (where form)"),
 				known(ww.negPrefix, "negative-number-packed-prefix-order", " (where form)"),
-				known(emptyOr, "or-with-empty-range", " (where form)"):
+				known(emptyOr, "or-with-empty-range", " (where form)"),
+				known(emptyDup && tb == "t1", "composite-index-empty-point-duplicates", " (where form)"):
 				return
 			}
-			judgeWhere(t, rec, termFns, args, wo, info)
-			if nt && rec.WantSample("nontrivial") {
-				rec.Sample("nontrivial", map[string]any{"expr": src, "row": fmt.Sprint(row), "lang": lr.String(),
-					"where": wo.String(), "where_strategy": wo.strat, "extend": xo.String(), "raw_nodes": ri.rawNodes, "value_nodes": ri.valNodes})
+			judgeWhere(t, rec, termFns, args, wo, info, brief, rowi == 0)
+			if nt && rowi == 0 && nops >= 3 && rec.WantSample("nontrivial") {
+				rec.Sample("nontrivial", brief())
 			}
 		}()
 	}
@@ -250,13 +260,13 @@ func sameValue(a, b core.Value) bool {
 	return core.Pack(pa) == core.Pack(pb)
 }
 
-func judgeExtend(t *rapid.T, rec *ev.Rec, lr lres, xo outcome, info func() string) {
+func judgeExtend(t *rapid.T, rec *ev.Rec, lr lres, xo outcome, info func() string, brief func() map[string]any, sample bool) {
 	switch {
 	case lr.raised && xo.raised:
 		rec.Label("extend_both_raise")
 		rec.LabelIf(xo.runtime, "extend_both_raise_go_runtime_error")
-		if rec.WantSample("extend_both_raise") {
-			rec.Sample("extend_both_raise", info())
+		if sample && rec.WantSample("extend_both_raise") {
+			rec.Sample("extend_both_raise", brief())
 		}
 	case lr.raised:
 		t.Fatalf("extend: language raises, query returns a value%s", info())
@@ -277,7 +287,7 @@ func judgeExtend(t *rapid.T, rec *ev.Rec, lr lres, xo outcome, info func() strin
 	}
 }
 
-func judgeWhere(t *rapid.T, rec *ev.Rec, termFns []langFn, args []core.Value, wo outcome, info func() string) {
+func judgeWhere(t *rapid.T, rec *ev.Rec, termFns []langFn, args []core.Value, wo outcome, info func() string, brief func() map[string]any, sample bool) {
 	allTrue, canZero, canRaise := true, false, false
 	var cls []string
 	for _, f := range termFns {
@@ -300,8 +310,8 @@ func judgeWhere(t *rapid.T, rec *ev.Rec, termFns []langFn, args []core.Value, wo
 			t.Fatalf("where: query raises but no conjunct raises in the language (conjuncts %s)%s", terms, info())
 		}
 		rec.Label("where_both_raise")
-		if rec.WantSample("where_both_raise") {
-			rec.Sample("where_both_raise", info())
+		if sample && rec.WantSample("where_both_raise") {
+			rec.Sample("where_both_raise", brief())
 		}
 	case wo.n == 1:
 		if !allTrue {
